@@ -265,18 +265,22 @@ def stringValue (s : Cps) : Except Err Cps :=
   | [] => .error .indexError
   | q :: _ => .ok (((unescQuote q s).drop 1).dropLast)
 
-/-- `_match_forbidden_in_uri = re.compile(r""".*?[\(\)\s\;,'"]""", re.U).match` (`helper.py:105`):
-`.` does not match a line feed, but a line feed is itself `\s`, so the lazy prefix never has to cross one -/
+/-- `_match_forbidden_in_uri = re.compile(r""".*?[\(\)\s\;,'"\x00-\x08\x0e-\x1f\x7f]""", re.U | re.S).match`
+(`helper.py:105-107`): the value contains one of the listed characters -/
 def forbiddenInUri (c : Nat) : Bool :=
-  c = 0x28 || c = 0x29 || isSpaceChar c || c = 0x3B || c = 0x2C || c = cApos || c = cQuote
+  c = 0x28 || c = 0x29 || isSpaceChar c || c = 0x3B || c = 0x2C || c = cApos || c = cQuote ||
+  c ≤ 0x08 || (0x0E ≤ c && c ≤ 0x1F) || c = 0x7F
 
 /-- `helper.uri(value)` (`helper.py:108-116`) -/
 def helperUri (value : Cps) : Cps :=
   let v := if value.any forbiddenInUri then helperString value else value
   cps "url(" ++ v ++ [0x29]
 
-/-- `str.strip()` -/
-def strip (s : Cps) : Cps := ((s.dropWhile isSpaceChar).reverse.dropWhile isSpaceChar).reverse
+/-- CSS white space: space, tab, LF, CR, FF -/
+def isCssSpace (c : Nat) : Bool := c = 0x20 || c = 0x09 || c = 0x0A || c = 0x0D || c = 0x0C
+
+/-- `str.strip(' \t\r\n\f')` -/
+def strip (s : Cps) : Cps := ((s.dropWhile isCssSpace).reverse.dropWhile isCssSpace).reverse
 
 /-- `s.find('(')`: index or -1; here: number of characters to drop for `uri[uri.find('(') + 1 : -1]` -/
 def afterParen : Cps → Option Cps
@@ -421,8 +425,6 @@ def denote (s : Cps) : Option Den :=
 
 
 /-! ## what a written string / URL denotes (specification side: CSS 2.1 §4.1.3, §4.3.4, §4.3.7) -/
-
-def isCssSpace (c : Nat) : Bool := c = 0x20 || c = 0x09 || c = 0x0A || c = 0x0D || c = 0x0C
 
 def hexDigitVal (c : Nat) : Nat :=
   if 0x30 ≤ c ∧ c ≤ 0x39 then c - 0x30 else if 0x41 ≤ c ∧ c ≤ 0x46 then c - 0x41 + 10 else c - 0x61 + 10
